@@ -220,6 +220,7 @@ def run_job(job, scratch_root, keep=False):
         res["wall_s"] = time.time() - t0
         return res
     reach_seen = {}
+    lc_seen = {}
     failed = []
     n = 0
     classes = {}
@@ -227,6 +228,9 @@ def run_job(job, scratch_root, keep=False):
         desc = p.get("description", "")
         name = p.get("property", "")
         status = p.get("status", "")
+        if desc.startswith("reach:lc:"):       # loop-body probes of the injector: one per copy of the body (entry state / post-havoc state)
+            lc_seen.setdefault(desc, []).append(status)
+            continue
         is_reach = any(desc.startswith(r) for r in job["reach"]) if job["reach"] else False
         if is_reach:
             if p.get("sourceLocation", {}).get("function") == entry:
@@ -261,6 +265,20 @@ def run_job(job, scratch_root, keep=False):
         for d, st in reach_seen.items():
             if st != "FAILURE":
                 vac.append("guard '%s' is %s (precondition contradictory or call does not return)" % (d, st))
+    # loop contracts: the end of every annotated loop body must be reachable in every copy CBMC makes of it (in particular the
+    # post-havoc copy on which the invariant step and the decreases clause are checked); a loop none of whose copies is
+    # reachable is dead in this job and must be declared so (dead_loops)
+    res["lc_probes"] = {k: v for k, v in lc_seen.items()}
+    for d, sts in sorted(lc_seen.items()):
+        key = d[len("reach:lc:"):]
+        if all(st == "FAILURE" for st in sts):
+            continue
+        if all(st == "SUCCESS" for st in sts):
+            if key not in job.get("dead_loops", []) and "*" not in job.get("dead_loops", []):
+                vac.append("loop %s is never entered in this job (not declared in dead_loops)" % key)
+        else:
+            if key not in job.get("step_unreachable_ok", []):
+                vac.append("loop %s: a copy of the body does not reach its end (%s) - invariant step proved vacuously?" % (key, ",".join(sts)))
     if job.get("enforce") and not any(k.startswith("postcondition") or "postcondition" in k for k in classes):
         if not job.get("no_post_ok"):
             vac.append("no postcondition obligation generated")
@@ -396,6 +414,8 @@ def main():
         if args.prop == "C01":
             core = [j for j in sel if j.get("c01_core") or any(j["name"].startswith(pfx) for pfx in C01_CORE)]
             sel = core
+    if os.environ.get("VERIF_ONLY_THOROUGH"):   # maintenance: the thorough-tier jobs alone
+        sel = [j for j in sel if j["tier"] == "thorough"]
     if args.jobs:
         pats = args.jobs.split(",")
         sel = [j for j in jobs if any(re.fullmatch(p, j["name"]) for p in pats)]
